@@ -14,7 +14,8 @@ PROPS = {
     "C14": dict(
         suites=[("values", {Q: 600, T: 60000})],
         rule="values suite, capture cases only: real ValueSet/Record/Event objects over dynamic field sets "
-             "(arity 0, 32, 1..8; duplicate names; every primitive kind incl. Empty) captured through "
+             "(arity 0, 32, 1..8; duplicate names, also with signed-zero pairs and identical values; every primitive kind incl. Empty; "
+             "error chains with boxed and with inline (same-address) sources) captured through "
              "from_values/from_record/from_event; non-trivial = a case with a duplicate field name and >= 3 lines; "
              "distinct by input text",
         trusted=["tracing-core 0.1.33 Value impls (which Visit callback each primitive triggers, f32->f64 widening, "
@@ -24,8 +25,9 @@ PROPS = {
     "C15": dict(
         suites=[("values", {Q: 600, T: 60000})],
         rule="values suite: exhaustive insert/get sequences over 3 names x 3 values up to length 3 (quick) / 4 "
-             "(thorough), random operation sequences (insert/get/extend/collect/serde/iterators) up to 25/60 ops, "
-             "typed comparisons on boundary-biased values; non-trivial = sequence that re-inserts an existing name "
+             "(thorough), random operation sequences (insert/get/extend/collect/JSON text/serde MapDeserializer with exact size hint/"
+             "iterators) up to 25/60 ops, typed comparisons on boundary-biased values incl. neighbouring bit patterns, signed zeros "
+             "and NaNs; non-trivial = sequence that re-inserts an existing name "
              "and has >= 3 lines; distinct by input text",
         assumptions=["serde_json text layer (the `v json` op builds the document text itself and feeds it to the real deserializer)"],
     ),
@@ -80,12 +82,16 @@ MANIFEST_TEXT["C20"] = dict(
     technique="Lean 4 proof (simulation over the id map, invariant by induction) + differential correspondence",
 )
 
-_RECV_RULE = ("receiver suite: streams from a guest simulator (announcements incl. repeats, spans with contextual/explicit "
-              "parents, nested / re-entrant / non-LIFO enters, clones, drops, records, follows-from, events; call sites "
-              "with up to 64 fields), invalid events mixed in (unknown call sites, dead spans, 33..40 values), history "
-              "operations persist keep|lose|losenew and discard at random positions, retry-after-discard shapes, wide "
-              "call sites with > 32 accumulated values across a restart; exhaustive sequences over a 15-symbol alphabet "
-              "up to length 3 (quick) / 5 (thorough). ")
+_RECV_RULE = ("receiver suite: streams from a guest simulator (announcements incl. repeats and second ids for a known "
+              "description, descriptions alternately built from owned and borrowed strings, names with separators / "
+              "raw-identifier prefixes / duplicates; spans with contextual/explicit parents, span ids mostly increasing but also "
+              "smaller, far away or recycled after death; nested / re-entrant / non-LIFO enters, overlapping enters before "
+              "quiescent cuts, clones, drops, records with fields in stored, reversed or permuted order, follows-from, events; "
+              "call sites with up to 130 fields), invalid events mixed in (unknown call sites, dead spans, 33..40 values), history "
+              "operations persist keep|lose|losenew|cold (cold = descriptions new to the process, receiver built before the host "
+              "is installed) and discard at random positions (every second receiver drop happens while its thread unwinds), "
+              "retry-after-discard shapes, wide call sites with 33..130 accumulated values across a restart; exhaustive sequences "
+              "over a 15-symbol alphabet up to length 3 (quick) / 5 (thorough). ")
 for _p in ["C02", "C03", "C04", "C06", "C07", "C08"]:
     PROPS[_p] = dict(suites=[("receiver", {Q: 500, T: 40000})], rule=_RECV_RULE)
 PROPS["C02"]["rule"] += "non-trivial = >= 1 cut with an alive guest span and >= 4 events; distinct by input text"
@@ -114,7 +120,8 @@ PROPS["C11"] = dict(
     rule="wire suite: grammar-generated events (every variant), persisted span sets and metadata sets; ids from "
          "{0, u64::MAX, random 64-bit, small}; values of every kind with 128-bit extremes, 64-bit boundaries, finite floats "
          "incl. ±0 / subnormals / max / random bit patterns, strings empty / Unicode / escapes / NUL, error chains of depth "
-         "1..5, value sets with 0 and 32 entries; forward: real serde_json::to_string vs model encode (tree comparison); "
+         "1..5, value sets with 0 and 32 entries, persisted spans with 33..70 accumulated values, events whose values are collected "
+         "from entries that repeat a name; forward: real serde_json::to_string vs model encode (tree comparison); "
          "backward: real from_str of the canonical document, of field-permuted documents and of documents with duplicate "
          "keys inside `values` vs model decode; every real document validated against wire/wire-0.2.schema.json and by the "
          "model's conforms*; non-trivial = an event whose value set has >= 3 entries of >= 3 kinds; distinct by input text",
@@ -298,7 +305,8 @@ PROPS["C18"] = dict(suites=[("pred", {Q: 150, T: 4000})],
          "the predicate atoms); predicate instances are compiled into the harness from a generated table (types are static in Rust): "
          "32 atoms per side (level exact / LevelFilter incl. OFF, target path / custom, name, field with typed constants of every kind "
          "and value(..) views, message, parent, ancestor) + all `&` / `|` combinations over a 15-atom core (depth 2) + 60 sampled depth-3 "
-         "combinations = 601 span and 601 event predicates; every query evaluates eval, find_case(true), find_case(false); scanner "
+         "combinations = 603 span and 603 event predicates; targets include near misses of the `::` rule (`app:db`, `app:`, `my_app` vs "
+         "`my-app`), items with a string field `log.target`, 128-bit values congruent to the typed constants modulo 2^64; every query evaluates eval, find_case(true), find_case(false); scanner "
          "helpers single/first/last/all/none over all spans/events, children, events, descendants, deep events under catch_unwind; "
          "non-trivial = >= 10 predicate queries on existing items of a storage with >= 2 spans; distinct by input text")
 MANIFEST_TEXT["C18"] = dict(
